@@ -77,51 +77,59 @@ MEMBERS = {
         'C06_lattice_end_to_end_linked',
         'C06_lattice_end_to_end_conv_linked',
         'C06_link_inverse_satisfiable',
+        'C06_lattice_unique_owner_linked',
     ],
 }
 TRUSTED = [
-    'hand-written model coq/C06/Model.v (modelled, tied by execution only)',
-    'cells, surfaces other than planes and the effect of a transformation on a '
-    'cell\'s geometry are abstract in the model: develop_lattice is observed '
-    'through the translation it applies to the unit cell\'s planes, the fill '
-    'universe and the 12 numbers of filltr; how a 12-number transformation '
-    'moves a surface (p -> O + B^T p, MIP transform_frame) is C04\'s subject '
-    'and is taken as the definition of apply_tr here',
-    'C06_lattice_end_to_end_linked derives the interface below from C05\'s '
-    'theorems over C05\'s model (cell_transform_den, pot_fill_located); what '
-    'remains assumed there: C05\'s sense/key laws (C04), inv = inverse of the '
-    'C06 point map on the produced transformations (satisfiable: '
-    'C06_link_inverse_satisfiable), the universe list of the lattice holds '
-    'the element cells, side conditions of pot_fill_located on the developed '
-    'table',
-    'C06_lattice_end_to_end: what cell_transform and pot_fill do with the '
-    'cells develop_lattice generates (region = image under apply_tr; volume = '
-    'container region /\\ image of each leaf cell of the fill universe under '
-    'the fill transformation, with the leaf\'s material) is restated from '
-    'C05/C04 as the definition lattice_volumes, not proved here; covered by '
-    'the point sweep',
-    'MIP extract_surfaces_list (order of the surfaces of the cell card) is '
-    'not modelled: the model takes its output; covered by the sweep only',
+    'hand-written model coq/C06/Model.v; its agreement with the code is tied '
+    'by execution (15 ties), not proved',
+    'how a 12-number transformation moves a surface (p -> O + B^T p, MIP '
+    'transform_frame) is C04\'s subject and is taken as the definition of '
+    'apply_tr here',
+    'LINKED family (C06_lattice_end_to_end_linked, _conv_linked, '
+    '_unique_owner_linked): the cell_transform / pot_fill interface is derived '
+    'from C05\'s theorems over C05\'s model; still assumed there: C05\'s '
+    'sense_law and key_law (C04), inverse_of (C05\'s pull-back = inverse of '
+    'apply_tr on the produced transformations; satisfiable for orthogonal '
+    'ones: C06_link_inverse_satisfiable), the lattice universe\'s list in du '
+    'is the list of element cells (no deletion of the lattice cell / '
+    'by_universe of the developed table in the statement), c_orig = [] and '
+    'du-closedness of the developed table, and for the converse definedness '
+    'of C05\'s partial Den',
+    'the UNLINKED C06_lattice_end_to_end (iff over plain regions) keeps the '
+    'interface as the definition lattice_volumes; the real pot_fill / '
+    'cell_transform on the converter\'s objects are covered by the point sweep '
+    '(default options and the four inlining option sets)',
+    'MIP extract_surfaces_list (order of the surfaces of the cell card), '
+    'keyword dispatch of parse_keywords, the i/m/j/log shorthands of '
+    'expand_data_card and the numeric value of FILL parameters (to_float, TRn '
+    'lookup, to_cos, normalize_transform: C04/C05) are outside the model; '
+    'covered by the sweep only',
     'binary64 rounding, numpy matmul evaluation order and x**2 vs x*x: '
     'absorbed by the 1e-9 scaled tolerance of the numeric ties; unit cells '
     'whose reciprocal vectors are linearly dependent AND not dyadic are not '
     'compared (both sides divide by rounding noise)',
-    'harness: generators (c06_gen.py), mcnpref reference semantics, t4eval, '
+    'harness: generators (c06_gen.py), mcnpref reference semantics (+ the '
+    'TRCL-and-fill-transformation rule in c06_gen.LatRef), t4eval, '
     'impl.T4File reader, PEG shim replacing TatSu, the run-time wrapper '
     'around CellConversion.develop_lattice',
 ]
 ASSUMPTIONS = [
-    'range bounds and cell numbers of --lattice / FILL are spelled '
-    '[+-]?[0-9]+ (the model\'s int() is narrower than Python\'s: no blanks, '
-    'underscores, non-ASCII digits)',
+    'integers of --lattice / FILL are spelled [+-]?[0-9]+ (the model\'s int() '
+    'is narrower than Python\'s: no blanks, underscores, non-ASCII digits); '
+    'FILL parameter tokens are float spellings that end in a digit or a point '
+    'and contain no colon (tr_token); inf/nan spellings excluded',
     'C06_square_base_vectors: the two surfaces of a pair are distinct '
-    '(spacing <> 0) and the outward normals of the pairs are linearly '
-    'independent; otherwise the code raises ZeroDivisionError (modelled, tied)',
-    'C06_develop_lattice_located: ranges with lo <= hi, an array of exactly '
-    'size(ranges) entries, the dimension test of the code passes (as many '
-    'ranges as base vectors, or as many non-trivial ranges as base vectors: '
-    'C06_dimension_checks_spec), filltr empty or 12 numbers, at most '
-    'one TRCL of 12 numbers',
+    '(spacing <> 0) and the normals of the pairs are linearly independent; '
+    'otherwise the code raises ZeroDivisionError (modelled, tied, proved: '
+    'C06_square_errors)',
+    'C06_develop_lattice_located and the end-to-end theorems: ranges with '
+    'lo <= hi, an array of exactly size(ranges) entries, at least one range '
+    'per base vector and one-point surplus ranges (C06_dimension_checks_spec; '
+    'otherwise LatticeError, proved), filltr empty or 12 numbers, at most one '
+    'TRCL of 12 numbers (the parser produces no other shape)',
+    'C06_tokenize_fill_array: tokens without blanks, tabs, ( ) =, upper-case '
+    'letters, not starting or ending with a colon (okword)',
     'a lattice cell with both TRCL and a fill transformation is swept against '
     'the rule "TRCL moves the cell, the fill transformation alone places the '
     'filler" (the rule of mcnpref.locate for ordinary filled cells and of the '
@@ -247,7 +255,12 @@ def owners_at(t4, point):
     import t4eval
     evl = t4eval.Evaluator(t4, eps=1e-9)
     comp_of = {vid: name for name, vols in t4.geomcomp for vid in vols}
-    return [comp_of.get(v, '?') for v in evl.owners(point)]
+    try:
+        return [comp_of.get(v, '?') for v in evl.owners(point)]
+    except t4eval.T4EvalError as exc:
+        # a witness point on a surface of the WRITTEN geometry: the geometry is
+        # not the expected one (the witness points are interior points)
+        return [f'<{exc}>']
 
 
 def witness_rotation():
